@@ -396,7 +396,9 @@ fn parser_for_file_path<'p>(
     parsers: &'p HashMap<OsString, LanguageParser>,
     extra_file_extensions: &HashMap<OsString, OsString>,
 ) -> Option<&'p LanguageParser> {
-    let file_name = file_path.file_name()?.to_str()?;
+    // A file name that is not valid Unicode still has its (valid) extension.
+    let file_name = file_path.file_name()?.to_string_lossy();
+    let file_name = file_name.as_ref();
 
     for (i, _) in file_name.match_indices('.').rev() {
         let extension = &file_name[i + 1..];
